@@ -513,9 +513,9 @@ def run(ctx):
             if h not in loops:
                 continue
             # events after the last visit of the header on this path
-            idx = p.blocks.index(h)
-            inloop = set(p.blocks[idx:])
-            evs = [e for e in p.events if (e[0] in ("call", "await") and (e[3] if e[0] == "call" else e[2]) in inloop)]
+            # (by event order, so that what an inlined helper does inside the loop body is counted)
+            marks = [i for i, e in enumerate(p.events) if e[0] == "loophead" and e[1] == h and e[2] == fn.path]
+            evs = [e for e in p.events[(marks[-1] if marks else 0):] if e[0] in ("call", "await")]
             consuming = [e for e in evs if (e[0] == "call" and re.search(r"(get_varint|get_bytes|get_buffer|poll_read|poll_write|Frame::read|Frame::read_async|read_frame|BufferReader::skip|read_exact|Iterator>::next|recv|Decoder::decode_integer|Decoder::decode_string)$", e[1])) or e[0] == "await"]
             nl += 1
             ctx.check("C11-R3", "loop@%s|bb%d" % (path.replace("wtransport_proto::", "p::"), 0), bool(consuming),
@@ -550,7 +550,7 @@ def run(ctx):
             how = "octets::get_varint masks the two length bits: value < 2^62"
         ctx.check("C11-R4", "from_u64_unchecked@%s|%s" % (fn.path.replace("wtransport_proto::", "p::").replace("wtransport::", "w::"), canon(x)[:80]), how is not None,
                   "%s calls the unsafe VarInt::from_u64_unchecked(%s) without a proof that the argument is < 2^62 (bounds [%s,%s])" % (fn.path, canon(x), lo, hi), ev[4], detail=how)
-    ctx.floor("C11-R4", "from_u64_unchecked call sites", nu, 6)
+    ctx.floor("C11-R4", "from_u64_unchecked call sites", nu, 4)
     ns = 0
     for fn, p, ev, atoms in call_sites(A, r"SessionId::from_session_stream_unchecked$"):
         if p is None or "::tests::" in fn.path:
